@@ -170,8 +170,12 @@ impl PhoneticSuggestion {
             if let Some(emoji) = data.get_emoji_by_emoticon(term) {
                 // Add the emoticon
                 // Sometimes the emoticon is captured as preceding meta characters and already included.
+                // And sometimes it is its own transliteration (like `=\`).
                 if term != string.preceding() {
-                    self.suggestions.push(Rank::last_ranked(term.to_owned(), 1));
+                    push_checked(
+                        &mut self.suggestions,
+                        Rank::last_ranked(term.to_owned(), 1),
+                    );
                 }
                 self.suggestions.push(Rank::emoji(emoji.to_owned()));
                 // Mark that we have added the typed text already (as the emoticon).
